@@ -104,15 +104,16 @@ pub fn header_helper<S: Src, const PT: u8, const WORDS: usize, const BYTES: usiz
     let padding = s.u8();
     let count = s.u8();
     s.assume(count <= 31);
-    let mut buf = [0xA5u8; BYTES];
+    let mut hbuf = [0xA5u8; BYTES];
+    let buf: &mut [u8] = &mut hbuf;
     let n = writer::write_header_unchecked::<Custom<PT, 4>>(padding, count, &mut buf[..4 * words]);
     assert!(n == 4);
     let i = s.upto(3);
     assert!(buf[i] == hdr_byte(i, padding, count, PT, 4 * words));
     // and the reading helpers invert it
-    assert!(parser::parse_version(&buf) == 2 && parser::parse_count(&buf) == count);
-    assert!(parser::parse_packet_type(&buf) == PT && parser::parse_length(&buf) == 4 * words);
-    assert!(parser::parse_padding_bit(&buf) == (padding > 0));
+    assert!(parser::parse_version(buf) == 2 && parser::parse_count(buf) == count);
+    assert!(parser::parse_packet_type(buf) == PT && parser::parse_length(buf) == 4 * words);
+    assert!(parser::parse_padding_bit(buf) == (padding > 0));
     assert!(buf[4] == 0xA5, "header writer touched the body");
     vcover!(words == WORDS, "largest buffer");
     vcover!(words == 257, "length field above 255");
@@ -276,7 +277,7 @@ pub fn in_compound<S: Src, const PT: u8, const MIN: usize>(s: &mut S) {
 }
 
 common::register! {
-    q_header_0 = header_helper::<_, 0, 2048, 8192> => 2,
+    q_header_0 = header_helper::<_, 0, 65536, 262144> => 2,
     q_header_242 = header_helper::<_, 242, 2048, 8192> => 2,
     q_padding = padding_helper => 2,
     q_check_192_4 = check_helper::<_, 192, 4, 300> => 2,
